@@ -109,6 +109,14 @@ CHECKS = {
              "rejected or else be lossless, which decides 'no partial parse' without an independent membership test.",
         design="4/C17",
         note="Trusted base: vf/refparse.py (tree walker by rule names), the renderer in vf/checks/c17.py, Hypothesis."),
+    "C11": dict(
+        technique="property-based testing (Hypothesis): generated Einsums/mappings paired with constructed architectures, bindings and formats (and the shipped accelerator specs with drawn sizes), executed on a reference model with inert metrics stand-ins; differential oracle metrics-mode vs plain-mode vs dense evaluation",
+        text="Generated-input search over a constructed family of architectures (1-3 levels, DRAM, buffet/cache, compute, the three "
+             "intersector types incl. leader-follower with any co-iterated leader, sequencer), bindings (lazy/eager, evict-on) and formats "
+             "for generated product Einsums and cascades, plus the shipped accelerator specifications: the metrics-mode program must "
+             "compute exactly the tensors of the plain-mode program and of dense evaluation. Found and fixed the payload-order defect of "
+             "leader-follower intersection (8641d3c).",
+        design="4/C11"),
 }
 
 NOT_APPLICABLE = {}
